@@ -282,6 +282,35 @@ func janitorMode(a map[string]string) {
 			fmt.Printf("janitor %s interval=%d ok\n", ct.name, iv)
 		}
 	}
+	// a callback that re-enters the cache (on the evicted key and on a new one) must not stall the janitor
+	for _, ct := range ctors {
+		var fired int64
+		var c cacheAPI
+		c = ct.mk(10*time.Second, func(k string, v interface{}) {
+			c.Get(k)
+			c.Set("re-"+k, v, cache.NoExpiration)
+			c.Delete("absent-" + k)
+			atomic.AddInt64(&fired, 1)
+		})
+		for i := 0; i < 10; i++ {
+			c.Set(fmt.Sprint("k", i), i, time.Millisecond)
+		}
+		c.Set("forever", 1, cache.NoExpiration)
+		ok := false
+		for w := 0; w < 1000; w++ { // up to 5 s
+			if atomic.LoadInt64(&fired) == 10 && c.Count() == 11 {
+				ok = true
+				break
+			}
+			time.Sleep(5 * time.Millisecond)
+		}
+		if !ok {
+			bad++
+			fmt.Printf("BAD-janitor-reentrant %s: with a callback that calls Get/Set/Delete the janitor removed and reported only %d of 10 expired entries in 5 s (count=%d, want 11)\n", ct.name, atomic.LoadInt64(&fired), c.Count())
+		} else {
+			fmt.Printf("janitor %s reentrant callback ok\n", ct.name)
+		}
+	}
 	// leak check: create and drop caches (with entries and callbacks, janitor on and off, interleaved), collect
 	runtime.GC()
 	time.Sleep(10 * time.Millisecond)
